@@ -13,6 +13,10 @@ var psKeys = []string{"a.n", "a.s", "b.t", "b.n", "acc.owner", "tm.event"}
 
 var (
 	poolInts   = []string{"0", "1", "2", "3", "5", "7", "10", "42", "100"}
+	// integers whose neighbours differ by 1 where binary floating point no longer can tell them apart (2^53, amounts
+	// with 18 decimals, the top of the 64-bit range) and one beyond that range
+	poolBigInts = []string{"9007199254740992", "9007199254740993", "9007199254740994", "999999999999999999", "1000000000000000000",
+		"1000000000000000001", "9223372036854775806", "9223372036854775807", "9223372036854775808"}
 	poolDecs   = []string{"0.5", "2.5", "7.0", "10.25"}
 	poolTexts  = []string{"alice", "bob", "Tx", "NewBlock", "x/y", "a b", "", "al", "carol/7", "Tom"}
 	poolDates  = []string{"2019-12-31", "2020-01-01", "2021-06-15"}
@@ -30,7 +34,7 @@ var keyHome = map[string]string{"a.n": "int", "b.n": "num", "a.s": "text", "acc.
 func genValueOfKind(t *rapid.T, kind string) string {
 	switch kind {
 	case "int":
-		return rapid.SampledFrom(poolInts).Draw(t, "vint")
+		return genIntText(t, true)
 	case "num":
 		if rapid.IntRange(0, 3).Draw(t, "dec") == 0 {
 			return rapid.SampledFrom(poolDecs).Draw(t, "vdec")
@@ -65,6 +69,18 @@ func genTimeText(t *rapid.T, value bool) string {
 		}
 	}
 	return renderInstant(inst, off, z, frac)
+}
+
+// genIntText: mostly small integers, one time in five a large one. Operands stay within the 64-bit range (a
+// larger operand is a query that cannot be evaluated at all); values may exceed it (own verdict then undefined).
+func genIntText(t *rapid.T, value bool) string {
+	if rapid.IntRange(0, 4).Draw(t, "big") == 0 {
+		if value {
+			return rapid.SampledFrom(poolBigInts).Draw(t, "vbig")
+		}
+		return rapid.SampledFrom(poolBigInts[:8]).Draw(t, "litbig")
+	}
+	return rapid.SampledFrom(poolInts).Draw(t, "vint")
 }
 
 func genValueFor(t *rapid.T, key string) string {
@@ -113,7 +129,7 @@ func genCond(t *rapid.T, keys []string) gcond {
 	}
 	switch shape {
 	case "int":
-		c.Kind, c.Op, c.Lit = "int", rapid.SampledFrom(cmpOps).Draw(t, "op"), rapid.SampledFrom(poolInts).Draw(t, "lit")
+		c.Kind, c.Op, c.Lit = "int", rapid.SampledFrom(cmpOps).Draw(t, "op"), genIntText(t, false)
 	case "float":
 		c.Kind, c.Op, c.Lit = "float", rapid.SampledFrom(cmpOps).Draw(t, "op"), rapid.SampledFrom([]string{"2.5", "7.5", "1.5", "10."}).Draw(t, "lit")
 	case "str":
@@ -148,9 +164,15 @@ func condFromEvent(t *rapid.T, key, v string) gcond {
 	switch {
 	case reCanonInt.MatchString(v):
 		c.Kind, c.Lit = "int", v
+		if !fitsInt64(v) {
+			c.Lit = poolBigInts[7]
+		}
 		c.Op = rapid.SampledFrom([]string{"=", ">=", "<=", ">", "<"}).Draw(t, "dop")
 		if c.Op == ">" || c.Op == "<" {
-			c.Lit = rapid.SampledFrom(poolInts).Draw(t, "dlit")
+			c.Lit = genIntText(t, false)
+			if len(v) > 15 {
+				c.Lit = rapid.SampledFrom(poolBigInts[:8]).Draw(t, "dbiglit")
+			}
 		}
 	case reDate.MatchString(v):
 		c.Kind, c.Lit, c.Op = "date", v, rapid.SampledFrom([]string{"=", ">=", "<="}).Draw(t, "dop")
